@@ -46,6 +46,10 @@ def fmt9(v):
 def make_xyz(path, r, nlines, colour_sweep=False):
     """returns the expected list of (x,y,z as f32 floats, r,g,b)"""
     exp = []
+    # every third file opens with a run of black / white / one repeated colour
+    special = None
+    if not colour_sweep and r.random() < 0.34:
+        special = (r.choice([1, 2, 5, 40]), r.choice([(0, 0, 0), (0, 0, 0), (255, 255, 255), (7, 7, 7), (0, 0, 1)]))
     with open(path, "w") as f:
         for i in range(nlines):
             kind = r.randrange(20)
@@ -62,6 +66,10 @@ def make_xyz(path, r, nlines, colour_sweep=False):
             x, y, z = f32(gen_coord(r)), f32(gen_coord(r)), f32(gen_coord(r))
             if colour_sweep:
                 cr, cg, cb = i % 256, (i * 7 + 3) % 256, (255 - i) % 256
+            elif special is not None and i < special[0]:
+                cr, cg, cb = special[1]         # a run of equal "default-looking" colours at the start
+            elif special is not None and r.random() < 0.3:
+                cr, cg, cb = r.choice([(0, 0, 0), (255, 255, 255), special[1]])   # and repeats later on
             else:
                 cr, cg, cb = r.randrange(256), r.randrange(256), r.randrange(256)
             extra = ""
